@@ -90,9 +90,22 @@ def expand(spec: dict, driver) -> list[dict]:
         for li, ln in enumerate(lines):
             for m in IDENT.finditer(ln):
                 occ.append((li, m.start(), m.end()))
+        # member accesses go through links into other scopes and files: always asked, on top of
+        # the sample of all identifiers
+        members = [o for o in occ if o[1] > 0 and lines[o[0]][o[1] - 1] == "%"]
         if len(occ) > max_pos:
             step = len(occ) / max_pos
             occ = [occ[int(j * step)] for j in range(max_pos)]
+        if len(members) > max_pos:
+            step = len(members) / max_pos
+            members = [members[int(j * step)] for j in range(max_pos)]
+        occ = occ + [o for o in members if o not in occ]
+        for (li, s_, e_) in members[: max_pos // 2]:
+            # completion of the component list right behind the '%'
+            add(req(nid, "textDocument/completion", {"textDocument": {"uri": uri},
+                                                      "position": {"line": li, "character": s_}}),
+                f"completion@{rel(p)}:{li}:{s_}")
+            nid += 1
         for li, s, e in occ:
             mid = s + (1 if e - s > 1 else 0)
             for meth in methods:
